@@ -38,7 +38,7 @@ func smallCfg(t *rapid.T, legacy bool) gen.AsmConfig {
 func genAcceptCase(t *rapid.T) acceptCase {
 	var c acceptCase
 	legacy := rapid.IntRange(0, 2).Draw(t, "dialect") == 0
-	c.Class = rapid.SampledFrom([]string{"valid", "mutated", "mutated", "soup", "boundary_start", "boundary_length", "cross_dialect", "cross_dialect"}).Draw(t, "class")
+	c.Class = rapid.SampledFrom([]string{"valid", "mutated", "mutated", "soup", "boundary_start", "boundary_length", "cross_dialect", "cross_dialect", "mode_in_symbol"}).Draw(t, "class")
 	switch c.Class {
 	case "valid":
 		c.Cfg = gen.AsmCfg(legacy).Draw(t, "cfg")
@@ -86,6 +86,36 @@ func genAcceptCase(t *rapid.T) acceptCase {
 			fmt.Fprintf(&sb, "%send %s\n", endLabel, e)
 		} else if endLabel != "" {
 			fmt.Fprintf(&sb, "%send\n", endLabel)
+		}
+		c.Text = sb.String()
+	case "mode_in_symbol":
+		// the addressing mode comes out of a symbol's value (textual substitution would allow it):
+		// whatever the assembler makes of it, an accepted instruction obeys the rule set
+		c.Cfg = gen.AsmCfg(legacy).Draw(t, "cfg")
+		var sb strings.Builder
+		n := rapid.IntRange(1, 3).Draw(t, "nsym")
+		for i := 0; i < n; i++ {
+			mode := rapid.SampledFrom([]string{"#", "$", "@", "<", ">", "*", "{", "}"}).Draw(t, "symmode")
+			val := rapid.SampledFrom([]string{"0", "1", "-1", "x0", "2+1"}).Draw(t, "symval")
+			if i > 0 && rapid.IntRange(0, 2).Draw(t, "symchain") == 0 {
+				fmt.Fprintf(&sb, "m%d equ m%d\n", i, i-1)
+			} else {
+				fmt.Fprintf(&sb, "m%d equ %s%s\n", i, mode, val)
+			}
+		}
+		sb.WriteString("x0 equ 2\n")
+		for k := rapid.IntRange(1, 4).Draw(t, "nins"); k > 0; k-- {
+			op := rapid.SampledFrom([]string{"mov", "add", "sub", "jmp", "jmz", "jmn", "djn", "cmp", "slt", "spl", "dat", "seq", "nop", "mul"}).Draw(t, "symop")
+			sym := fmt.Sprintf("m%d", rapid.IntRange(0, n-1).Draw(t, "symuse"))
+			other := rapid.SampledFrom([]string{"1", "#1", "@2", "<3", "$0", sym}).Draw(t, "symother")
+			switch rapid.IntRange(0, 2).Draw(t, "symplace") {
+			case 0:
+				fmt.Fprintf(&sb, "%s %s, %s\n", op, sym, other)
+			case 1:
+				fmt.Fprintf(&sb, "%s %s, %s\n", op, other, sym)
+			default:
+				fmt.Fprintf(&sb, "%s %s\n", op, sym)
+			}
 		}
 		c.Text = sb.String()
 	case "boundary_length":
